@@ -29,9 +29,11 @@ Definition to_sized_deltas16 := to_sized_deltas_w W16.
 Definition skip_z {A} (m : Z) (l : list A) : outcome (list A) :=
   if (m <? 0)%Z then Panic P_SLICE else Ok (skipn (Z.to_nat m) l).
 
-(** the decoding loop  for len(data) > 0 { delta, m := Uvarint(data); last += uintW(delta); data = data[m:]; append }.
-    m = 0 (truncated varint) leaves data unchanged: the Go loop then repeats forever, appending — [Panic P_DIVERGE].
-    m < 0 (overflowing varint): slice bounds panic.  Fuel = |data| is exact: every other round consumes >= 1 byte. *)
+(** the decoding loop (after fix: "stop at a malformed varint")
+      for len(data) > 0 { delta, m := Uvarint(data); if m <= 0 { break }; last += uintW(delta); data = data[m:]; append }
+    Every round consumes m >= 1 bytes, so fuel = |data| is never exhausted (deltas_dec_total); the [Panic P_DIVERGE]
+    branch marks "the loop would not terminate" and is shown unreachable.  The code before the fix (m = 0 looped
+    forever, m < 0 panicked) is kept as [deltas_dec_unfixed] in Model/FormatRobust.v. *)
 Fixpoint deltas_dec (fuel : nat) (W : N) (data : list N) (last : N) : outcome (list N) :=
   match data with
   | [] => Ok []
@@ -40,30 +42,26 @@ Fixpoint deltas_dec (fuel : nat) (W : N) (data : list N) (last : N) : outcome (l
     | O => Panic P_DIVERGE
     | S f =>
       let '(delta, m) := uvarint data in
-      if (m =? 0)%Z then Panic P_DIVERGE else
-      do rest <- skip_z m data;
+      if (m <=? 0)%Z then Ok [] else
       let off := (last + delta mod W) mod W in
-      do tl <- deltas_dec f W rest off;
+      do tl <- deltas_dec f W (skipn (Z.to_nat m) data) off;
       Ok (off :: tl)
     end
   end.
 
-(** allocation request of  make([]T, 0, sz)  for the decoded count sz (elements); int(sz) < 0 takes the ps[:0] path *)
-Definition make_request (sz : N) : N := if sz <? 9223372036854775808 then sz else 0.
 (** runtime.makeslice panics when cap*elemsize exceeds maxAlloc = 2^48 (linux/amd64) *)
 Definition MAXALLOC : N := 281474976710656.
 
-(** fromSizedDeltas / fromSizedDeltas16 on ARBITRARY bytes: result and the element count requested from make() *)
+(** fromSizedDeltas / fromSizedDeltas16 on ARBITRARY bytes: result and the number of bytes requested from make().
+    After the fix the size prefix is clamped to the number of remaining bytes and a malformed prefix decodes to
+    the empty list. *)
 Definition from_sized_deltas_w (W elem : N) (data : list N) : outcome (list N) * N :=
   let '(sz, m) := uvarint data in
-  match skip_z m data with
-  | Ok rest =>
-    let req := make_request sz in
-    if MAXALLOC <? req * elem then (Panic P_MAKESLICE, 0)
-    else (deltas_dec (length rest) W rest 0, req * elem)
-  | Err e => (Err e, 0)
-  | Panic w => (Panic w, 0)
-  end.
+  if (m <=? 0)%Z then (Ok [], 0) else
+  let rest := skipn (Z.to_nat m) data in
+  let req := N.min sz (nlen rest) in
+  if MAXALLOC <? req * elem then (Panic P_MAKESLICE, 0)
+  else (deltas_dec (length rest) W rest 0, req * elem).
 Definition from_sized_deltas (data : list N) : outcome (list N) := fst (from_sized_deltas_w W32 4 data).
 Definition from_sized_deltas16 (data : list N) : outcome (list N) := fst (from_sized_deltas_w W16 2 data).
 
@@ -71,8 +69,7 @@ Fixpoint flatten_secs (l : list (N * N)) : list N :=
   match l with [] => [] | (s, e) :: r => s :: e :: flatten_secs r end.
 Definition marshal_doc_sections (l : list (N * N)) : list N := to_sized_deltas (flatten_secs l).
 
-(** unmarshalDocSections: two Uvarint reads per round; the second read of an odd list sees empty data:
-    Uvarint(nil) = (0,0), data[0:] — no panic, End = Start. *)
+(** unmarshalDocSections (after the fix): two Uvarint reads per round, the loop stops at the first malformed one *)
 Fixpoint docsecs_dec (fuel : nat) (data : list N) (last : N) : outcome (list (N * N)) :=
   match data with
   | [] => Ok []
@@ -81,26 +78,24 @@ Fixpoint docsecs_dec (fuel : nat) (data : list N) (last : N) : outcome (list (N 
     | O => Panic P_DIVERGE
     | S f =>
       let '(d1, m1) := uvarint data in
-      do rest1 <- skip_z m1 data;
+      if (m1 <=? 0)%Z then Ok [] else
+      let rest1 := skipn (Z.to_nat m1) data in
       let s := (last + d1 mod W32) mod W32 in
       let '(d2, m2) := uvarint rest1 in
-      do rest2 <- skip_z m2 rest1;
+      if (m2 <=? 0)%Z then Ok [] else
+      let rest2 := skipn (Z.to_nat m2) rest1 in
       let e := (s + d2 mod W32) mod W32 in
-      if (m1 =? 0)%Z && (m2 =? 0)%Z then Panic P_DIVERGE else
       do tl <- docsecs_dec f rest2 e;
       Ok ((s, e) :: tl)
     end
   end.
 Definition unmarshal_doc_sections_a (data : list N) : outcome (list (N * N)) * N :=
   let '(sz, m) := uvarint data in
-  match skip_z m data with
-  | Ok rest =>
-    let req := make_request sz / 2 in       (* int(sz)/2 elements of 8 bytes *)
-    if MAXALLOC <? req * 8 then (Panic P_MAKESLICE, 0)
-    else (docsecs_dec (length rest) rest 0, req * 8)
-  | Err e => (Err e, 0)
-  | Panic w => (Panic w, 0)
-  end.
+  if (m <=? 0)%Z then (Ok [], 0) else
+  let rest := skipn (Z.to_nat m) data in
+  let req := N.min sz (nlen rest) / 2 in       (* int(sz)/2 elements of 8 bytes *)
+  if MAXALLOC <? req * 8 then (Panic P_MAKESLICE, 0)
+  else (docsecs_dec (length rest) rest 0, req * 8).
 Definition unmarshal_doc_sections (data : list N) : outcome (list (N * N)) := fst (unmarshal_doc_sections_a data).
 
 (* ------------------------------------------------------------------ sections and layout (section.go, write.go) *)
@@ -586,12 +581,16 @@ Definition verify_ok (nameIdx boundaries masks dsi nli : list N) : bool :=
            && Nat.eqb (length dsi) (S n) && Nat.eqb (length nli) (S n)
   end.
 
+Definition ngram_text_ok (f : ifile) (sec : N * N) (text : list N) : bool :=
+  ((nlen text + 7) / 8) * 8 <=? f_len f - fst sec.
+
 Definition lift_a {A} (r : outcome A * N) (k : A -> N -> outcome idata) : outcome idata :=
   match fst r with Ok a => k a (snd r) | Err e => Err e | Panic w => Panic w end.
 
 (** readIndexData for the modelled sections.  [next] = IndexFormatVersion >= 17 (from the opaque JSON metadata).
     The ngram b-tree built at load time is modelled in Model/Btree.v from i_ngramSec. *)
-Definition read_index (f : ifile) (t : toc) (next : bool) : outcome idata :=
+Definition read_index_with (dsz : N -> N -> list N -> outcome (list N) * N) (dsec : list N -> outcome (list (N * N)) * N)
+                           (f : ifile) (t : toc) (next : bool) : outcome idata :=
   let '(fc_d, _, fc_offs) := toc_compound t (str "fileContents") in
   let '(nl_d, _, nl_offs) := toc_compound t (str "newlines") in
   let '(fs_d, _, fs_offs) := toc_compound t (str "fileSections") in
@@ -609,24 +608,26 @@ Definition read_index (f : ifile) (t : toc) (next : bool) : outcome idata :=
   do languages <- blob_of f (toc_simple t (str "languages"));
   do categories <- blob_of f (toc_simple t (str "categories"));
   do ngramText <- blob_of f (toc_simple t (str "ngramText"));
-  (* newBtreeIndex: textContent[i:i+8] for i += 8 — slice panic when the length is not a multiple of 8 *)
-  if negb (nlen ngramText mod 8 =? 0) then Panic P_SLICE else
+  (* newBtreeIndex: textContent[i:i+8] for i = 0, 8, .. < len.  A Go slice may be re-sliced past its length up to its
+     capacity (here: the end of the mapping), so a length that is not a multiple of 8 reads the following bytes and
+     panics only when the last 8-byte window crosses the end of the mapping. *)
+  if negb (ngram_text_ok f (toc_simple t (str "ngramText")) ngramText) then Panic P_SLICE else
   do masks <- (let s := toc_simple t (str "branchMasks") in read_section_words 8 f (fst s) (snd s));
   do fileNameContent <- blob_of f fn_d;
   do nameNgramText <- blob_of f (toc_simple t (str "nameNgramText"));
-  if negb (nlen nameNgramText mod 8 =? 0) then Panic P_SLICE else
+  if negb (ngram_text_ok f (toc_simple t (str "nameNgramText")) nameNgramText) then Panic P_SLICE else
   do rdsBlob <- blob_of f (toc_simple t (str "runeDocSections"));
-  lift_a (unmarshal_doc_sections_a rdsBlob) (fun rds a1 =>
+  lift_a (dsec rdsBlob) (fun rds a1 =>
   do b1 <- blob_of f (toc_simple t (str "subRepos"));
   do b2 <- blob_of f (toc_simple t (str "runeOffsets"));
   do b3 <- blob_of f (toc_simple t (str "nameRuneOffsets"));
   do b4 <- blob_of f (toc_simple t (str "nameEndRunes"));
   do b5 <- blob_of f (toc_simple t (str "fileEndRunes"));
-  lift_a (from_sized_deltas_w W32 4 b1) (fun subRepos a2 =>
-  lift_a (from_sized_deltas_w W32 4 b2) (fun runeOffsets a3 =>
-  lift_a (from_sized_deltas_w W32 4 b3) (fun nameRuneOffsets a4 =>
-  lift_a (from_sized_deltas_w W32 4 b4) (fun nameEndRunes a5 =>
-  lift_a (from_sized_deltas_w W32 4 b5) (fun fileEndRunes a6 =>
+  lift_a (dsz W32 4 b1) (fun subRepos a2 =>
+  lift_a (dsz W32 4 b2) (fun runeOffsets a3 =>
+  lift_a (dsz W32 4 b3) (fun nameRuneOffsets a4 =>
+  lift_a (dsz W32 4 b4) (fun nameEndRunes a5 =>
+  lift_a (dsz W32 4 b5) (fun fileEndRunes a6 =>
   let boundaries := relative_index fc_offs (snd fc_d) in
   let nli := relative_index nl_offs (snd nl_d) in
   let dsi := relative_index fs_offs (snd fs_d) in
@@ -641,8 +642,10 @@ Definition read_index (f : ifile) (t : toc) (next : bool) : outcome idata :=
             (a1 + a2 + a3 + a4 + a5 + a6 + a7)) in
   if next then
     do b6 <- blob_of f (toc_simple t (str "repos"));
-    lift_a (from_sized_deltas_w W16 2 b6) finish
+    lift_a (dsz W16 2 b6) finish
   else finish (map (fun _ => 0) masks) 0)))))).
+
+Definition read_index := read_index_with from_sized_deltas_w unmarshal_doc_sections_a.
 
 (** NewSearcher restricted to the modelled part *)
 Definition load_shard (f : ifile) (next : bool) : outcome idata :=
